@@ -1034,6 +1034,8 @@ fn gen_simple(rng: &mut Rng, rt: i64, outer: &[Outer], cfg: &QCfg) -> Cst {
 pub struct QCfg {
     /// texts of annotations of the store the queries are meant for (literals that can match)
     pub pool: Vec<Vec<i64>>,
+    /// per result type: for some items of the store, constraints the item satisfies
+    pub facts: Vec<(i64, Vec<Cst>)>,
     pub rts: Vec<i64>,
     pub texts: bool,
     pub unions: bool,
@@ -1061,6 +1063,17 @@ pub fn gen_query(rng: &mut Rng, cfg: &QCfg, outer: &mut Vec<Outer>, depth: usize
         _ => 4,
     };
     let mut cs: Vec<Cst> = (0..n).map(|_| gen_cst(rng, rt, outer, cfg)).collect();
+    // half of the outer levels describe an item that exists: constraints taken from its facts
+    let mine: Vec<&Vec<Cst>> = cfg.facts.iter().filter(|f| f.0 == rt && !f.1.is_empty()).map(|f| &f.1).collect();
+    if depth == 0 && !mine.is_empty() && rng.chance(1, 2) {
+        let f = *rng.pick(&mine);
+        for c in cs.iter_mut() {
+            if rng.chance(3, 4) {
+                let fact = rng.pick(f).clone();
+                *c = if cfg.unions && rng.chance(1, 6) { Cst::Union(vec![gen_simple(rng, rt, outer, cfg), fact]) } else { fact };
+            }
+        }
+    }
     // a sub-query normally refers to an enclosing variable
     if depth > 0 && rng.chance(4, 5) {
         for _ in 0..10 {
@@ -1107,5 +1120,180 @@ pub fn permutations<T: Clone>(v: &[T]) -> Vec<Vec<T>> {
             out.push(p);
         }
     }
+    out
+}
+
+fn tok(id: Option<&str>, prefix: char) -> Option<i64> {
+    match id {
+        Some("default-annotationset") if prefix == 's' => Some(77),
+        Some(s) if s.starts_with(prefix) => s[1..].parse::<i64>().ok(),
+        _ => None,
+    }
+}
+
+fn value_ops(v: &DataValue, rng: &mut Rng) -> Option<Sx> {
+    match v {
+        DataValue::Null => Some(l(vec![a(0)])),
+        DataValue::Bool(true) => Some(l(vec![a(2)])),
+        DataValue::Bool(false) => Some(l(vec![a(3)])),
+        DataValue::Int(i) => Some(match rng.below(4) {
+            0 => l(vec![a(7), a(*i as i64)]),
+            1 => l(vec![a(9), a(*i as i64)]),
+            2 => l(vec![a(18), l(vec![a(5), a(*i as i64 + 1)])]),
+            _ => l(vec![a(5), a(*i as i64)]),
+        }),
+        DataValue::String(s) => {
+            let mut v = vec![a(4)];
+            v.extend(s.chars().map(|c| a(c as u32 as i64)));
+            Some(l(v))
+        }
+        _ => None,
+    }
+}
+
+fn data_facts(d: &ResultItem<AnnotationData>, meta: bool, rng: &mut Rng, out: &mut Vec<Cst>, with_val: bool) {
+    if let (Some(st), Some(kt)) = (tok(d.set().id(), 's'), tok(d.key().id(), 'k')) {
+        out.push(Cst::Key(st, kt, meta));
+        if let Some(o) = value_ops(d.value(), rng) {
+            out.push(Cst::KeyVal(st, kt, o.clone(), meta));
+            if with_val {
+                out.push(Cst::Val(o));
+            }
+        }
+    }
+}
+
+/// constraints that items of the store satisfy (up to 6 items per result type)
+pub fn store_facts(store: &AnnotationStore, rng: &mut Rng) -> Vec<(i64, Vec<Cst>)> {
+    let mut out: Vec<(i64, Vec<Cst>)> = Vec::new();
+    let _ = guard(|| {
+        let anns: Vec<_> = store.annotations().collect();
+        for _ in 0..6.min(anns.len()) {
+            let x = rng.pick(&anns).clone();
+            let mut f = Vec::new();
+            if let Some(t) = tok(x.id(), 'a') {
+                f.push(Cst::Id(t));
+            }
+            for ts in x.textselections() {
+                if let Some(t) = tok(ts.resource().id(), 'r') {
+                    f.push(Cst::Res(VRef::Id(t), false));
+                }
+            }
+            for r in x.resources_as_metadata() {
+                if let Some(t) = tok(r.id(), 'r') {
+                    f.push(Cst::Res(VRef::Id(t), true));
+                }
+            }
+            for d in x.data() {
+                if let Some(t) = tok(d.set().id(), 's') {
+                    f.push(Cst::Set(VRef::Id(t), false));
+                }
+                data_facts(&d, false, rng, &mut f, true);
+            }
+            for y in x.annotations() {
+                if let Some(t) = tok(y.id(), 'a') {
+                    f.push(Cst::Ann(VRef::Id(t), false));
+                }
+            }
+            for y in x.annotations_in_targets(AnnotationDepth::One) {
+                if let Some(t) = tok(y.id(), 'a') {
+                    f.push(Cst::Ann(VRef::Id(t), true));
+                }
+            }
+            let parts: Vec<Vec<i64>> = x.textselections().map(|t| text_cps(t.begin(), t.end())).collect();
+            if !parts.is_empty() {
+                let mut joined = Vec::new();
+                for p in parts.iter() {
+                    if !joined.is_empty() {
+                        joined.push(32);
+                    }
+                    joined.extend(p.iter());
+                }
+                f.push(Cst::Text(joined, false));
+            }
+            out.push((0, f));
+        }
+        let data: Vec<_> = store.data().collect();
+        for _ in 0..6.min(data.len()) {
+            let d = rng.pick(&data).clone();
+            let mut f = Vec::new();
+            if let Some(t) = tok(d.set().id(), 's') {
+                f.push(Cst::Set(VRef::Id(t), false));
+            }
+            data_facts(&d, false, rng, &mut f, true);
+            for y in d.annotations() {
+                if let Some(t) = tok(y.id(), 'a') {
+                    f.push(Cst::Ann(VRef::Id(t), false));
+                }
+            }
+            for y in d.annotations_as_metadata() {
+                if let Some(t) = tok(y.id(), 'a') {
+                    f.push(Cst::Ann(VRef::Id(t), true));
+                }
+            }
+            out.push((1, f));
+        }
+        let keys: Vec<_> = store.keys().collect();
+        for _ in 0..4.min(keys.len()) {
+            let k = rng.pick(&keys).clone();
+            let mut f = Vec::new();
+            if let Some(t) = tok(k.set().id(), 's') {
+                f.push(Cst::Set(VRef::Id(t), false));
+            }
+            for y in k.annotations() {
+                if let Some(t) = tok(y.id(), 'a') {
+                    f.push(Cst::Ann(VRef::Id(t), false));
+                }
+            }
+            for y in k.annotations_as_metadata() {
+                if let Some(t) = tok(y.id(), 'a') {
+                    f.push(Cst::Ann(VRef::Id(t), true));
+                }
+            }
+            out.push((2, f));
+        }
+        for r in store.resources() {
+            let mut f = Vec::new();
+            if let Some(t) = tok(r.id(), 'r') {
+                f.push(Cst::Id(t));
+                f.push(Cst::Res(VRef::Id(t), false));
+            }
+            for x in r.annotations() {
+                for d in x.data() {
+                    data_facts(&d, false, rng, &mut f, false);
+                }
+            }
+            for x in r.annotations_as_metadata() {
+                for d in x.data() {
+                    data_facts(&d, true, rng, &mut f, false);
+                }
+            }
+            out.push((3, f));
+        }
+        for st in store.datasets() {
+            let mut f = Vec::new();
+            if let Some(t) = tok(st.id(), 's') {
+                f.push(Cst::Id(t));
+                f.push(Cst::Set(VRef::Id(t), rng.chance(1, 2)));
+            }
+            out.push((4, f));
+        }
+        for x in anns.iter().take(8) {
+            for ts in x.textselections() {
+                let mut f = Vec::new();
+                if let Some(t) = tok(ts.resource().id(), 'r') {
+                    f.push(Cst::Res(VRef::Id(t), false));
+                }
+                if let Some(t) = tok(x.id(), 'a') {
+                    f.push(Cst::Ann(VRef::Id(t), false));
+                }
+                for d in x.data() {
+                    data_facts(&d, false, rng, &mut f, true);
+                }
+                f.push(Cst::Text(text_cps(ts.begin(), ts.end()), false));
+                out.push((5, f));
+            }
+        }
+    });
     out
 }
